@@ -199,3 +199,219 @@ Proof.
     cbn [snd fst]. rewrite (fk_change_refl sqlite_driver sqlite_refl_laws c). reflexivity. }
   reflexivity.
 Qed.
+
+(** ** the HCL normal form against the original, generated index names allowed *)
+Definition origin_not_p (i : index) : Prop :=
+  has_prefix SQLITE_AUTOINDEX (i_name i) <> None -> i_origin i <> Some ORIGIN_P.
+
+Lemma is_auto_norm i : origin_not_p i -> is_auto (norm_idx i) = is_auto i.
+Proof.
+  intro H. unfold is_auto, norm_idx. cbn [i_name i_origin].
+  destruct (has_prefix SQLITE_AUTOINDEX (i_name i)) eqn:E; [|reflexivity].
+  assert (i_origin i <> Some ORIGIN_P) as Ho by (apply H; rewrite E; discriminate).
+  cbn [ostr_eqb]. destruct (i_origin i) as [o|]; [|reflexivity].
+  cbn [ostr_eqb]. destruct (str_eqb o ORIGIN_P) eqn:Eo; [|reflexivity].
+  exfalso. apply Ho. f_equal. apply str_eqb_eq. exact Eo.
+Qed.
+
+Lemma part_col_names_seq k l : part_col_names (seq_parts k l) = part_col_names (seq_parts 0 l).
+Proof.
+  revert k. induction l as [|[[d c] x] l IH]; intro k; [reflexivity|]. cbn [seq_parts part_col_names p_col].
+  rewrite (IH (k + 1)), (IH (0 + 1)). reflexivity.
+Qed.
+Lemma part_col_names_norm ps : part_col_names (seq_parts 0 (map part_key ps)) = part_col_names ps.
+Proof.
+  induction ps as [|p ps IH]; [reflexivity|]. cbn [map seq_parts]. unfold part_key at 1.
+  destruct (p_col p) as [n|] eqn:E; cbn [part_col_names p_col]; rewrite E; [|reflexivity].
+  rewrite part_col_names_seq, IH. reflexivity.
+Qed.
+
+Lemma lor_zero a b : N.lor a b = 0 -> a = 0 /\ b = 0.
+Proof. apply N.lor_eq_0_iff. Qed.
+
+Lemma alike_norm i : idx_ok i -> origin_not_p i -> alike (norm_idx i) i /\ alike i (norm_idx i).
+Proof.
+  intros Hok Ho. destruct (index_change_norm i Hok) as [H1 H2].
+  pose proof (is_auto_norm i Ho) as Ha.
+  assert (part_col_names (i_parts (norm_idx i)) = part_col_names (i_parts i)) as Hp
+    by (unfold norm_idx; cbn [i_parts]; apply part_col_names_norm).
+  assert (parts_change sqlite_driver (norm_idx i) i = 0 /\ parts_change sqlite_driver i (norm_idx i) = 0) as [P1 P2].
+  { unfold index_change in H1, H2. apply lor_zero in H1. destruct H1 as [H1 _]. apply lor_zero in H1. destruct H1 as [_ H1].
+    apply lor_zero in H2. destruct H2 as [H2 _]. apply lor_zero in H2. destruct H2 as [_ H2]. auto. }
+  split; repeat split; auto.
+Qed.
+
+(** normalizeIdxName renames the two sides alike *)
+Lemma normalize_norm_idx i t t' i' : t_name t' = t_name t -> origin_not_p i ->
+  normalize_idx_name i t = Some i' ->
+  normalize_idx_name (norm_idx i) t' = Some (set_i_name (norm_idx i) (i_name i')).
+Proof.
+  intros Hn Ho. rewrite !normalize_idx_name_cases, (is_auto_norm i Ho).
+  assert (part_col_names (i_parts (norm_idx i)) = part_col_names (i_parts i)) as ->
+    by (unfold norm_idx; cbn [i_parts]; apply part_col_names_norm).
+  rewrite Hn. destruct (is_auto i).
+  - destruct (part_col_names (i_parts i)); [|discriminate]. intros [= <-]. reflexivity.
+  - intros [= <-]. destruct i; reflexivity.
+Qed.
+
+Lemma normalize_norm_idxs l t t' lx : t_name t' = t_name t -> Forall origin_not_p l ->
+  normalize_idxs t l = Some lx ->
+  exists lx', normalize_idxs t' (map norm_idx l) = Some lx' /\ map i_name lx' = map i_name lx.
+Proof.
+  intros Hn Ho. revert lx. induction Ho as [|i l Hi Ho IH]; intros lx H.
+  - simpl in H. injection H as <-. exists []. auto.
+  - simpl in H. destruct (normalize_idx_name i t) as [i'|] eqn:E; [|discriminate].
+    destruct (normalize_idxs t l) as [r|] eqn:Er; [|discriminate]. injection H as <-.
+    destruct (IH r eq_refl) as (r' & Hr' & Hm).
+    exists (set_i_name (norm_idx i) (i_name i') :: r'). cbn [map normalize_idxs].
+    rewrite (normalize_norm_idx i t t' i' Hn Hi E), Hr'. split; [reflexivity|]. cbn [map]. rewrite Hm.
+    destruct (norm_idx i); reflexivity.
+Qed.
+
+Record diffable_auto (x : xtable) : Prop := {
+  da_wf : wf_table (x_t x);
+  da_cols : Forall col_ok (t_cols (x_t x));
+  da_idx : Forall idx_ok (t_idx (x_t x));
+  da_origin : Forall origin_not_p (t_idx (x_t x));
+  da_norm : exists lx, normalize_idxs (x_t x) (t_idx (x_t x)) = Some lx /\ NoDup (map i_name lx) /\
+            (forall i, In i (t_idx (x_t x)) -> is_auto i = true ->
+               sqlite_is_generated_index_name (x_t x) i = true /\ (forall n, In n (map i_name lx) -> n <> i_name i));
+  da_pk : match t_pk (x_t x) with Some pk => pk_ok pk | None => True end;
+  da_fks : Forall (fun f => norm_fk f = f) (t_fks (x_t x));
+  da_fk_stable : fk_stable (t_name (x_t x)) (t_name (x_t x)) (t_fks (x_t x)) (t_fks (x_t x));
+  da_checks : named_unique (t_checks (x_t x))
+}.
+
+Lemma diffable_auto_diffable_parts x : diffable_auto x ->
+  tsim_auto (x_t (norm_x x)) (x_t x) /\ tsim_auto (x_t x) (x_t (norm_x x)).
+Proof.
+  intros [WF Hc Hi Ho _ Hpk Hf Hfs Hck]. unfold norm_x. cbn [x_t].
+  pose proof (map_norm_fk_id _ Hf) as Efk.
+  split; constructor; cbn [t_name t_without_rowid t_strict t_checks t_fks t_cols t_pk t_idx]; auto.
+  - clear -Hc. induction Hc as [|c l Hc H IH]; simpl; constructor; [|exact IH].
+    split; [reflexivity|]. exact (proj1 (column_change_norm _ c Hc)).
+  - destruct (t_pk (x_t x)) as [pk|]; [|exact I]. exact (proj1 (pk_change_norm pk Hpk)).
+  - clear -Hi Ho. induction Hi as [|i l Hi H IH]; simpl; constructor.
+    + inversion Ho; subst. exact (proj1 (alike_norm i Hi H2)).
+    + inversion Ho; subst. apply IH. assumption.
+  - clear -Hc. induction Hc as [|c l Hc H IH]; simpl; constructor; [|exact IH].
+    split; [reflexivity|]. exact (proj2 (column_change_norm _ c Hc)).
+  - destruct (t_pk (x_t x)) as [pk|]; [|exact I]. exact (proj2 (pk_change_norm pk Hpk)).
+  - clear -Hi Ho. induction Hi as [|i l Hi H IH]; simpl; constructor.
+    + inversion Ho; subst. exact (proj2 (alike_norm i Hi H2)).
+    + inversion Ho; subst. apply IH. assumption.
+Qed.
+
+Lemma wf_norm_auto x : diffable_auto x -> wf_table (x_t (norm_x x)).
+Proof.
+  intros [WF Hc Hi Ho _ Hpk Hf Hfs Hck]. destruct (norm_names x) as [N1 N2].
+  pose proof (map_norm_fk_id _ Hf) as Efk.
+  constructor; unfold norm_x; cbn [x_t t_cols t_idx t_pk t_fks].
+  - rewrite N1. exact (wf_cols _ WF).
+  - rewrite N2. exact (wf_idx _ WF).
+  - intros i' Hin. apply in_map_iff in Hin. destruct Hin as (i & <- & Hin).
+    rewrite Forall_forall in Hi. destruct (Hi i Hin) as (Hsh & _).
+    unfold index_ok, norm_idx. cbn [i_parts]. apply seq_parts_ok.
+    clear -Hsh. induction Hsh as [|p ps Hp H IH]; simpl; constructor; [|exact IH].
+    unfold part_key, part_shape_ok in *. destruct (p_col p), (p_expr p); try contradiction; cbn [fst snd]; [left|right]; discriminate.
+  - intros pk' E. destruct (t_pk (x_t x)) as [pk|]; [|discriminate]. injection E as <-.
+    destruct Hpk as (Hparts & _). unfold index_ok, norm_pk. cbn [i_parts]. apply seq_parts_ok.
+    clear -Hparts. induction Hparts as [|p ps (Hd & Hx & Hcn) H IH]; simpl; constructor; [|exact IH].
+    cbn [fst snd]. left. exact Hcn.
+  - rewrite Efk. exact (wf_fks _ WF).
+Qed.
+
+Lemma gen_name_names t t' i i' : t_name t' = t_name t -> i_name i' = i_name i ->
+  sqlite_is_generated_index_name t' i' = sqlite_is_generated_index_name t i.
+Proof. intros H1 H2. unfold sqlite_is_generated_index_name. rewrite H1, H2. reflexivity. Qed.
+
+(** the differ sees no change between a table and its HCL round trip, either way -- also when the
+    table has UNIQUE-constraint indexes with generated names *)
+Theorem table_diff_norm_auto x : diffable_auto x ->
+  table_diff sqlite_driver no_skip (x_t (norm_x x)) (x_t x) = Some [] /\
+  table_diff sqlite_driver no_skip (x_t x) (x_t (norm_x x)) = Some [].
+Proof.
+  intro D. destruct (diffable_auto_diffable_parts x D) as [S1 S2].
+  pose proof (wf_norm_auto x D) as WFn.
+  destruct D as [WF Hc Hi Ho (lx & NL & ND & AU) Hpk Hf Hfs Hck].
+  pose proof (map_norm_fk_id _ Hf) as Efk.
+  split.
+  - apply (table_diff_sim_auto _ _ lx); [exact WFn|exact Hck| |exact NL|exact ND| |exact S1].
+    + unfold norm_x. cbn [x_t t_name t_fks]. rewrite Efk. exact Hfs.
+    + unfold norm_x. cbn [x_t t_idx]. intros i' Hin Ha. apply in_map_iff in Hin. destruct Hin as (i & <- & Hin).
+      rewrite Forall_forall in Ho. rewrite (is_auto_norm i (Ho i Hin)) in Ha.
+      destruct (AU i Hin Ha) as [G NN]. split.
+      * rewrite <- G. apply gen_name_names; reflexivity.
+      * intros j Hj. apply (NN (i_name j)). apply in_map. exact Hj.
+  - destruct (normalize_norm_idxs (t_idx (x_t x)) (x_t x) (x_t (norm_x x)) lx eq_refl Ho NL) as (lx' & NL' & Hm).
+    apply (table_diff_sim_auto _ _ lx'); [exact WF| | |exact NL'| | |exact S2].
+    + unfold norm_x. cbn [x_t t_checks]. exact Hck.
+    + unfold norm_x. cbn [x_t t_name t_fks]. rewrite Efk. exact Hfs.
+    + rewrite Hm. exact ND.
+    + intros i Hin Ha. destruct (AU i Hin Ha) as [G NN]. split; [exact G|].
+      intros j Hj. apply (NN (i_name j)). rewrite <- Hm. apply in_map. exact Hj.
+Qed.
+
+(** C03_hcl with generated index names *)
+Theorem hcl_roundtrip_diff_empty_auto name xs :
+  schema_wf xs -> Forall diffable_auto xs ->
+  exists ys, hcl_roundtrip xs = ROk ys /\
+    SchemaDiff sqlite_driver no_skip (schema_of name ys) (schema_of name xs) = Some [] /\
+    SchemaDiff sqlite_driver no_skip (schema_of name xs) (schema_of name ys) = Some [].
+Proof.
+  intros WF DF. exists (map norm_x xs). split; [exact (hcl_roundtrip_norm xs WF)|].
+  destruct WF as [_ ND]. unfold schema_of. rewrite map_map.
+  assert (map t_name (map x_t xs) = map x_name xs) as Hn1 by (rewrite map_map; reflexivity).
+  assert (map t_name (map (fun x => x_t (norm_x x)) xs) = map x_name xs) as Hn2 by (rewrite map_map; reflexivity).
+  split; apply schema_diff_pairs.
+  - rewrite Hn2. exact ND.
+  - clear -DF. induction DF as [|x l Hx H IH]; simpl; constructor; [|exact IH].
+    split; [reflexivity|exact (proj1 (table_diff_norm_auto x Hx))].
+  - rewrite Hn1. exact ND.
+  - clear -DF. induction DF as [|x l Hx H IH]; simpl; constructor; [|exact IH].
+    split; [reflexivity|exact (proj2 (table_diff_norm_auto x Hx))].
+Qed.
+
+(** ** witness: u(a int UNIQUE, b text) as inspected -- the UNIQUE constraint's index has a generated name *)
+Require Import Coq.Strings.String.
+Import List ListNotations.
+Definition w_u : xtable :=
+  mkX (mkTable (Bs "u") false false
+         [mkColumn (Bs "a") 2 (Bs "int") true None None None; mkColumn (Bs "b") 3 (Bs "text") true (Some (DLit (Bs "'x'"))) None None]
+         None
+         [mkIndex (Bs "sqlite_autoindex_u_1") true [mkPart 1 false (Some (Bs "a")) None] None None (Some (Bs "u"))]
+         [] []) [].
+Lemma w_u_wf : schema_wf [w_u].
+Proof.
+  split.
+  - constructor; [|constructor]. split; [|split; [|split]].
+    + constructor; [exact I|]. constructor; [eexists; vm_compute; reflexivity|constructor].
+    + exact I.
+    + constructor; [|constructor]. split; [discriminate|]. constructor; [vm_compute; reflexivity|constructor].
+    + constructor.
+  - vm_compute. constructor; [intros []|constructor].
+Qed.
+Lemma w_u_diffable : diffable_auto w_u.
+Proof.
+  constructor.
+  - constructor.
+    + nodup_tac.
+    + nodup_tac.
+    + intros i [<-|[]]. constructor; [left; discriminate|constructor].
+    + intros pk E. discriminate.
+    + nodup_tac.
+  - constructor; [split; [discriminate|exact I]|]. constructor; [split; [discriminate|vm_compute; reflexivity]|constructor].
+  - constructor; [|constructor]. split; [|split; [|split]].
+    + constructor; [exact I|constructor].
+    + exact I.
+    + discriminate.
+    + reflexivity.
+  - constructor; [|constructor]. intros _. discriminate.
+  - eexists. split; [vm_compute; reflexivity|]. split.
+    + nodup_tac.
+    + intros i [<-|[]] _. split; [vm_compute; reflexivity|]. intros n [<-|[]]. discriminate.
+  - exact I.
+  - constructor.
+  - intros f1 f2 [].
+  - intros c c' [].
+Qed.
